@@ -373,6 +373,9 @@ def c09(run):
     if usable and h:
         # reported instants under concurrency: GetWithExpiration / GetWithTTL racing writers that re-arm the key
         sched_runs(run, h, ("cache", "cacheof"), "lazy", ("NONLIN", "PREFILL"), quick=(200, 6))
+        # the clock advances in the middle of calls: a reported instant must be the stored one, not one recomputed
+        # from two clock readings
+        sched_runs(run, h, ("cache", "cacheof"), "ticks", ("NONLIN", "PREFILL"), quick=(150, 6))
         trace_cache_runs(run, h, quick=(40, 4), focuses=("", "lazy"))
         if run.tier != "quick":
             # deeper tiers: writers racing resizes as well (re-armed instants must survive a table copy)
